@@ -64,6 +64,24 @@ fn replay_one(path: &str) -> i32 {
     let job = doc["job"].clone();
     let want = doc["violation_key"].clone();
     let scratch = Scratch::new("c02r");
+    if job["dbfaults"] == true {
+        let out = crate::orch::run_chunks(
+            vec![crate::orch::Chunk { env: vec![], jobs: vec![(0, job.clone())] }],
+            &crate::orch::RunOpts { engine: "disk".into(), workers: 1, job_timeout_ms: 120_000, mem_mb: 3072, use_shim: false },
+            &scratch.dir,
+        );
+        if let Some(Outcome::Result(v)) = out.get(&0) {
+            for c in v["cases"].as_array().cloned().unwrap_or_default() {
+                if c["coll"] == doc["case"]["coll"] && c["name"] == doc["case"]["name"] && c["class"] == "ok" && !strs(&c["broken_kinds"]).is_empty() {
+                    println!("VIOLATION property=C02 replay={}", path);
+                    println!("  reproduced key={} detail={}", want, strs(&c["broken"]).join("; "));
+                    return 1;
+                }
+            }
+        }
+        println!("replay did not reproduce");
+        return 0;
+    }
     let dj = DJob {
         file: job["file"].as_str().unwrap_or("").to_string(),
         edit: serde_json::from_value(job["edit"].clone()).unwrap_or(Edit::Intact),
@@ -154,6 +172,45 @@ pub fn run(tier: &str, seed: u64, replay: Option<String>) -> i32 {
         jobs.len()
     );
     let r = diskrun::run(jobs, super::c19::L1_TIMEOUT_MS, &scratch.dir);
+    // ---- data-level faults: one referenced definition removed from the merged database
+    // (project + LIDER catalogue) the converter reads
+    let db_files: Vec<&crate::corpus::CorpusFile> = files.iter().filter(|f| thorough || f.kind == FileKind::Ctehexml || rng.chance(1, 4)).collect();
+    let db_chunks: Vec<crate::orch::Chunk> = db_files
+        .iter()
+        .enumerate()
+        .map(|(i, f)| crate::orch::Chunk { env: vec![], jobs: vec![(i, json!({"t":"disk","dbfaults":true,"file":f.rel}))] })
+        .collect();
+    let db_out = crate::orch::run_chunks(
+        db_chunks,
+        &crate::orch::RunOpts { engine: "disk".into(), workers: crate::orch::n_workers(), job_timeout_ms: 120_000, mem_mb: 3072, use_shim: false },
+        &scratch.dir,
+    );
+    let mut db_cases = 0u64;
+    let mut db_groups: Vec<(Value, String, Value)> = vec![];
+    for (i, f) in db_files.iter().enumerate() {
+        if let Some(Outcome::Result(v)) = db_out.get(&i) {
+            for c in v["cases"].as_array().cloned().unwrap_or_default() {
+                db_cases += 1;
+                if c["class"] == "ok" {
+                    for k in strs(&c["broken_kinds"]) {
+                        db_groups.push((
+                            json!({"class":"not_closed","link":k,"fault":"definition removed from the merged database"}),
+                            format!("{} {:?} removed -> Ok(model) with {}", c["coll"].as_str().unwrap_or(""), c["name"].as_str().unwrap_or(""), strs(&c["broken"]).join("; ")),
+                            json!({"engine":"diskfault(db)","job":{"t":"disk","dbfaults":true,"file":f.rel},"case":{"coll":c["coll"],"name":c["name"]}}),
+                        ));
+                    }
+                    if c["check_n"].as_u64().unwrap_or(0) > 0 && strs(&c["broken_kinds"]).is_empty() {
+                        db_groups.push((
+                            json!({"class":"checker_warns","link":"check() not empty","fault":"definition removed from the merged database"}),
+                            format!("{} {:?} removed -> check() warns", c["coll"], c["name"]),
+                            json!({"engine":"diskfault(db)","job":{"t":"disk","dbfaults":true,"file":f.rel},"case":{"coll":c["coll"],"name":c["name"]}}),
+                        ));
+                    }
+                }
+            }
+        }
+    }
+    eprintln!("[C02] + {} data-level definition removals over {} files", db_cases, db_files.len());
 
     let mut groups: BTreeMap<String, (Value, usize, DJob, String)> = BTreeMap::new();
     let mut classes: BTreeMap<String, u64> = BTreeMap::new();
@@ -220,7 +277,7 @@ pub fn run(tier: &str, seed: u64, replay: Option<String>) -> i32 {
             samples.push(json!({"job": j.to_json(), "cell": j.cell}));
         }
     }
-    let violations: Vec<Violation> = groups
+    let mut violations: Vec<Violation> = groups
         .into_values()
         .map(|(key, count, job, detail)| Violation {
             key,
@@ -229,6 +286,13 @@ pub fn run(tier: &str, seed: u64, replay: Option<String>) -> i32 {
             detail,
         })
         .collect();
+    let mut dbg: BTreeMap<String, Violation> = BTreeMap::new();
+    for (key, detail, replay) in db_groups {
+        let e = dbg.entry(key.to_string()).or_insert(Violation { key, count: 0, replay, detail });
+        e.count += 1;
+    }
+    violations.extend(dbg.into_values());
+    evaluations += db_cases;
     let rep = Report {
         property: "C02".into(),
         tier: tier.into(),
@@ -243,6 +307,7 @@ pub fn run(tier: &str, seed: u64, replay: Option<String>) -> i32 {
     extra.insert("fault_space_size".into(), json!(space_total));
     extra.insert("cells".into(), json!(n_cells));
     extra.insert("cells_hit".into(), json!(cells_hit.len()));
+    extra.insert("data_level_definition_removals".into(), json!(db_cases));
     extra.insert("generated_projects_option_variation".into(), json!(n_opt));
     extra.insert("fault_kinds_fired".into(), json!(fired));
     extra.insert("outcome_classes".into(), json!(classes));
